@@ -381,7 +381,9 @@ func (g *gen6) node(path string, depth int, name string) {
 			keyNames = append(keyNames, fmt.Sprintf("k%d", i))
 			keys = append(keys, fmt.Sprintf("k%d", i))
 		}
-		sp, sty := g.spell(strings.Join(keyNames, " "))
+		// the names of a key / unique argument are separated by white space of any length (RFC 7950 sec 14: sep)
+		seps := []string{" ", " ", " ", "  ", "\t", "\n", " \n  "}
+		sp, sty := g.spell(strings.Join(keyNames, seps[g.r.Intn(len(seps))]))
 		g.line("key%s%s;", g.ws(), sp)
 		g.exp = append(g.exp, exp6{path: path + ".key", want: keys, stmt: "key", sty: sty})
 		saved := g.cfgFalse
@@ -389,7 +391,7 @@ func (g *gen6) node(path string, depth int, name string) {
 		g.common(path, kind)
 		g.listDetails(path)
 		if g.r.Intn(3) == 0 {
-			sp, sty := g.spell("u1 u2")
+			sp, sty := g.spell("u1" + seps[g.r.Intn(len(seps))] + "u2")
 			g.line("unique%s%s;", g.ws(), sp)
 			g.exp = append(g.exp, exp6{path: path + ".unique.0", want: []interface{}{"u1", "u2"}, stmt: "unique", sty: sty})
 		}
